@@ -35,8 +35,9 @@ const SIG_K1B: &str = "rcb-k1b-heavy-left";
 /// would otherwise be `rcb-unbalanced-other`)
 const SIG_K2B: &str = "rcb-k2b-nopoint-rounding";
 const SIG_OTHER: &str = "rcb-unbalanced-other";
-/// `(min + max) / 2.0` overflows in f32 (|coordinates| above 1.7e38, all finite): the target is an
-/// infinity, every item is on one side of it twice, the node is not cut at all
+/// the search interval or the split position is not finite although every coordinate is: the
+/// bisection target overflowed (`(min + max) / 2.0` did, beyond 1.7e38, before /repo 2a9cff7 made it
+/// `min / 2.0 + max / 2.0`): every item is on one side of it twice, the node is not cut at all
 const SIG_K3: &str = "rcb-k3-midpoint-overflow";
 const SIG_PREMISE: &str = "rcb-premise-violated";
 /// what `par_rcb_split` reports contradicts what its fold/reduce must compute on these items,
@@ -94,7 +95,7 @@ fn replica_split(xs: &[f32], ws: &[i64], sum: i64, tolerance: f64, mut min: f32,
         if iters > MAX_SPLIT_ITERS {
             return None;
         }
-        let split_target = (min + max) / 2.0;
+        let split_target = min / 2.0 + max / 2.0; // as par_rcb_split since /repo 2a9cff7
         let mut count_left = 0usize;
         let mut weight_left = 0i64;
         let mut nearest_idx: Option<usize> = None;
@@ -226,6 +227,9 @@ struct NodeEval {
     tie_possible: bool,
     /// the search interval or the split position is not finite although every coordinate is
     overflowed: bool,
+    /// all-left exit although items lie at or right of the last target: `point - split_target`
+    /// overflowed to +inf for all of them (a gap wider than f32::MAX, only in a loose inherited box)
+    distance_overflow_all_left: bool,
 }
 
 /// `xs`, `ws`: the node's items (split axis); `order[..split]` = the low side the implementation made.
@@ -323,6 +327,13 @@ fn eval_node(
     //      distance; an item with a strictly smaller rounded distance is never passed over).
     let overflowed = xs.iter().all(|c| c.is_finite())
         && (!split_pos.is_finite() || rep.map_or(false, |r| !(r.fmin.is_finite() && r.fmax.is_finite())));
+    let distance_overflow_all_left = match rep {
+        Some(r) if r.exit == Exit::AllLeft && r.fmin.is_finite() && r.fmax.is_finite() => {
+            let t = r.fmin / 2.0 + r.fmax / 2.0;
+            xs.iter().any(|&c| !(c - t < 0.0))
+        }
+        _ => false,
+    };
     let mut anomaly = None;
     let mut tie_possible = false;
     if split < n {
@@ -350,7 +361,7 @@ fn eval_node(
     } else if n > 0 && wl_reported != sum_passed {
         anomaly = Some(format!("all-left exit reports weight_left {} instead of the sum {} it was given", wl_reported, sum_passed));
     }
-    NodeEval { w, wl, within_tol, brackets, k2_here, premise, below, above, distinct: m, spurious_nopoint, anomaly, tie_possible, overflowed }
+    NodeEval { w, wl, within_tol, brackets, k2_here, premise, below, above, distinct: m, spurious_nopoint, anomaly, tie_possible, overflowed, distance_overflow_all_left }
 }
 
 fn signature(anomalous: bool, overflowed: bool, k2: bool, exit: Option<Exit>, wl: i64, w: i64, spurious_nopoint: bool) -> &'static str {
@@ -453,6 +464,9 @@ fn judge(ctx: &mut Ctx, nodes: &[NodeOut]) -> Vec<(String, String)> {
         }
         if e.spurious_nopoint {
             ctx.count("node_nopoint_exit_decided_by_rounding");
+        }
+        if e.distance_overflow_all_left {
+            ctx.count("node_all_left_exit_hiding_items_at_infinite_distance");
         }
         if !nd.boxed {
             ctx.count(if nd.k2_above { "node_box_not_containing_below_k2" } else { "node_box_not_containing_without_k2" });
@@ -1538,9 +1552,8 @@ fn gen_special(ctx: &mut Ctx) {
             let vals: Vec<f32> = (0..m).map(|_| uniform(&mut ctx.rng, -10.0, 10.0) as f32).collect();
             (0..n * d).map(|_| *ctx.rng.pick(&vals) as f64 * (1.0 + uniform(&mut ctx.rng, -1.0, 1.0) * 1e-9)).collect()
         } else {
-            // |x| <= 1.6e38: `min + max` stays finite. Above 1.7e38 it overflows and the node is not
-            // cut at all (finding K3, corpus k3_midpoint_overflow.case*): not generated here
-            let scale = *ctx.rng.pick(&[1e30f64, 1e37, 1.6e38]);
+            // up to the end of the finite f32 range (the target `min / 2.0 + max / 2.0` cannot overflow)
+            let scale = *ctx.rng.pick(&[1e30f64, 1e37, 1.6e38, 3.3e38]);
             (0..n * d).map(|_| uniform(&mut ctx.rng, -1.0, 1.0) * scale).collect()
         };
         let xs: Vec<f64> = xs.iter().map(|v| if *v == 0.0 { 0.0 } else { *v }).collect();
